@@ -10,6 +10,8 @@
 (*          state of chain `ref`): must equal the recorded state `at`;     *)
 (*  "mds" / "sbox" / "const"  a real single layer on an arbitrary          *)
 (*          (possibly non-canonical) state: checked against the definition;*)
+(*  "fastmds" a real mds_partial_layer_fast(state, r) on a CARRY-BOUNDARY   *)
+(*          state of its 160-bit accumulator, against SparseMdsOk;         *)
 (*  "kat"   chain `ref` starts at published input k and must end in the    *)
 (*          published output k.                                            *)
 (* Same two-level fan-out as OpLogTrace; a violation names the event l.    *)
@@ -38,6 +40,7 @@ OpOk(e) ==
     [] e.op = "sbox"  -> IsState(e.in) /\ IsState(e.out) /\ SboxLayerOk(TRUE, e.in, e.out)
     [] e.op = "const" -> IsState(e.in) /\ IsState(e.out) /\ e.r \in 0..(NRounds - 1)
                          /\ ConstLayerOk(e.r, e.in, e.out)
+    [] e.op = "fastmds" -> IsState(e.in) /\ IsState(e.out) /\ SparseMdsOk(e.in, e.out, e.wt, e.v)
     [] e.op = "kat"   -> /\ e.ref \in 1..N /\ Rec[e.ref].op = "ref" /\ e.k \in 1..Len(KnownAnswers)
                          /\ Rec[e.ref].in = KnownAnswers[e.k][1]
                          /\ EqState(Rec[e.ref].m[NRounds], KnownAnswers[e.k][2])
